@@ -59,6 +59,9 @@ structure UpMsg where
   tc : Bool
   /-- answer payload token (0 = empty answer section) -/
   ans : Nat
+  /-- the answer's TTL is 0: the entry stored for it is already expired at the next lookup (which
+  drops it), i.e. the answer is never served from the cache -/
+  ttl0 : Bool
   deriving DecidableEq, Repr, Inhabited
 
 /-- outcome of one `ForwardDNS` call as the transport reports it -/
@@ -206,7 +209,7 @@ def dialSend (cfg : Cfg) (c : Client) (sch : Scheme) (a1 a2 : Att) (cache : List
       -- REQUEST's key, with the RESPONSE's question
       let cache' :=
         match m.q with
-        | some mq => if m.resp && m.rcode == 0 then insert cache c.key (Entry.mk mq.canon m.ans) else cache
+        | some mq => if m.resp && m.rcode == 0 && !m.ttl0 then insert cache c.key (Entry.mk mq.canon m.ans) else cache
         | none => cache
       (.ok m', cache')
 
@@ -276,7 +279,7 @@ def step (cfg : Cfg) (s : St) : Act → St
         | some e =>
           -- the cache was filled between the first lookup and `sf.Do`: `writeCachedResponse` into the
           -- capturing writer, no upstream exchange; the flight is over before anybody can join it
-          { s with flights := s.flights ++ [Flight.mk c.key i (some (.ok ⟨c.id, some e.q, true, 0, false, e.ans⟩))] }.setPc i (.waiting f)
+          { s with flights := s.flights ++ [Flight.mk c.key i (some (.ok ⟨c.id, some e.q, true, 0, false, e.ans, false⟩))] }.setPc i (.waiting f)
         | none =>
           { s with flights := s.flights ++ [Flight.mk c.key i none], active := insert s.active c.key f,
                    calls := s.calls ++ [(f, c.q)], activated := s.activated + 1 }.setPc i (.leading f)
